@@ -87,6 +87,7 @@ impl Flounder {
         match position_type {
             "startpos" => {
                 self.board = Board::default();
+                self.searcher.clear_positions();
 
                 if let Some(moves_idx) = parts.iter().position(|&x| x == "moves") {
                     self.make_moves(&parts[moves_idx + 1..]);
@@ -99,6 +100,7 @@ impl Flounder {
 
                 let fen = parts[2..8].join(" ");
                 self.board = Board::new(&fen);
+                self.searcher.clear_positions();
 
                 if let Some(moves_idx) = parts.iter().position(|&x| x == "moves") {
                     self.make_moves(&parts[moves_idx + 1..]);
@@ -223,6 +225,8 @@ impl Flounder {
         for mv_str in move_strs.iter() {
             let moves = move_gen.generate_moves(&self.board);
             let mv = moves.iter().find(|m| m.to_algebraic() == *mv_str);
+            // Remember every position of the game so that the search can see repetitions
+            self.searcher.push_position(&self.board);
             self.board.make_move(mv.unwrap());
         }
     }
